@@ -929,6 +929,49 @@ def random_dims(rng):
     return h, w
 
 
+# ------------------------------------------------------------------ thin boards with one dimension around a power of two
+
+POW2_DIMS = [255, 256, 257, 511, 512, 513, 1023, 1024, 1025, 2047, 2048, 2049, 4095, 4096, 4097]
+
+
+def slab_cuts(n):
+    """Positions c (a border between index c and c + 1 of the long dimension of length n): the two ends, one third, and
+    both sides of the power of two nearest to n."""
+    p = 1 << ((n + 2).bit_length() - 1)
+    return sorted(c for c in {0, n // 3, p - 2, p - 1, n - 2} if 0 <= c <= n - 2)
+
+
+def slab_border_text(h, w, cuts):
+    """puzz.link border body of the h x w board cut into slabs ACROSS its long dimension after each index in `cuts`
+    (columns if w >= h, rows otherwise), written from the format description (vertical borders row by row, then
+    horizontal borders row by row, five bits per base-32 character, most significant first, last group zero padded);
+    does not call the serializer."""
+    cuts = set(cuts)
+    along_w = w >= h
+    vert = [1 if (along_w and x in cuts) else 0 for y in range(h) for x in range(w - 1)]
+    horiz = [1 if ((not along_w) and y in cuts) else 0 for y in range(h - 1) for x in range(w)]
+    out = []
+    for bits in (vert, horiz):
+        for i in range(0, len(bits), 5):
+            g = bits[i:i + 5] + [0] * (5 - len(bits[i:i + 5]))
+            out.append("0123456789abcdefghijklmnopqrstuv"[int("".join(map(str, g)), 2)])
+    return "".join(out)
+
+
+def slab_rooms(h, w, cuts):
+    """the partition `slab_border_text(h, w, cuts)` describes, rooms and cells in canonical (row-major) order"""
+    along_w = w >= h
+    n = w if along_w else h
+    edges = [0] + [c + 1 for c in sorted(cuts)] + [n]
+    rooms = []
+    for lo, hi in zip(edges, edges[1:]):
+        if along_w:
+            rooms.append([(y, x) for y in range(h) for x in range(lo, hi)])
+        else:
+            rooms.append([(y, x) for y in range(lo, hi) for x in range(w)])
+    return rooms
+
+
 PUZZLES = ["nurikabe", "masyu", "slitherlink", "sudoku", "nurimisaki", "yajilin", "heyawake", "lits", "norinori"]
 
 
